@@ -94,6 +94,10 @@ structure Alarm where
   subs    : Nat := 0                -- entries of this alarm in the calendar's watch list
   nFired  : Nat := 0                -- ghost: callbacks-or-expiries so far
   nEnabled : Nat := 0               -- ghost: successful enable() calls so far
+  lastServed : Nat := 0             -- ghost: the instant the last expiry stood for
+  early   : Bool := false           -- ghost: some arm started from a base BEFORE lastServed (refresh()/enable()
+                                    --        while the wall clock was behind the instant already served)
+  wrapped : Bool := false           -- ghost: some arm happened outside the no-wrap range `InRange`
 deriving Repr
 
 /-- what the clocks and the calendar say when an operation runs -/
@@ -131,6 +135,20 @@ def delayMs (remainSec ms : Nat) : Nat :=
 /-- the time-zone offset activeTimer uses (system zone = UTC in the harness: TZ=UTC) -/
 def Alarm.offset (a : Alarm) : Int := if a.tzSet then a.off else 0
 
+/-- no uint32 wrap around the local computation that starts at UTC second `start` with
+time-zone offset `off`: local start not before 1970, and 368 days of head-room below 2^32
+on both the local and the UTC side -/
+def InRange (start : Nat) (off : Int) : Prop :=
+  0 ≤ (start : Int) + off ∧ (start : Int) + off + 368 * 86400 ≤ 4294967296 ∧ start + 368 * 86400 ≤ 4294967296
+
+instance (start : Nat) (off : Int) : Decidable (InRange start off) := by unfold InRange; infer_instance
+
+/-- the alarm after a successful arm for UTC target `T` with delay `d` (ghost flags updated) -/
+def armed (a : Alarm) (e : Env) (T d : Nat) : Alarm :=
+  { a with timer := some (e.monoMs + d), st := .running, target := T,
+           early := a.early || decide (max e.sec a.target < a.lastServed),
+           wrapped := a.wrapped || !decide (InRange (max e.sec a.target) a.offset) }
+
 /-- Alarm::activeTimer -/
 def activeTimer (a : Alarm) (e : Env) : Alarm × Bool :=
   let cur := e.sec
@@ -143,7 +161,7 @@ def activeTimer (a : Alarm) (e : Env) : Alarm × Bool :=
     let nu := subOff nl off
     let remain := w32 (nu + U32 - cur)                      -- uint32 subtraction
     let delay := delayMs remain e.ms
-    ({ a with timer := some (e.monoMs + delay), st := .running, target := nu }, true)
+    (armed a e nu delay, true)
 
 /-- initialize of the three kinds (`sod` as passed: may be out of range; `mask` = the
 characters of week_mask compared with '1') -/
@@ -207,7 +225,7 @@ Alarm::onTimeExpired: state = kInited; activeTimer(); then cb_.
 OneshotAlarm::onTimeExpired: state = kInited; cb_ (no re-arm). -/
 def expire (a : Alarm) (e : Env) : Alarm × (Nat × Bool) :=
   let served := (a.target, decide (a.st = .running))
-  let a0 := { a with timer := none, st := .inited, nFired := a.nFired + 1 }
+  let a0 := { a with timer := none, st := .inited, nFired := a.nFired + 1, lastServed := a.target }
   match a.cls with
   | .oneshot => (a0, served)
   | _ => ((activeTimer a0 e).1, served)
